@@ -100,12 +100,22 @@ def run(tier):
     d = core.scratch('verif-c12-')
     w = core.spec_copy()
     nstates = 7 if thorough else 4
-    inputs = ['', '1', '2', '5', '1', '2', '0', '5', '1', '1'][:nstates + 2]      # 2 / 5: stay on the node, same-length record with different content
+    # the session is first taken 17 levels deep (18 cache scopes, 35 symbols), then: 2 / 5 stay on the node (same-length record
+    # with different content), 1 descends, 0 ascends
+    warm = [''] + ['1'] * 17
+    inputs = ['2', '5', '1', '2', '0', '5', '1', '1', '2'][:nstates + 2]
     sess, neigh = 'alice', 'bob'
     base = os.path.join(d, 'base')
     os.makedirs(base)
     result_of(vh(['fs-req', base, neigh, '']))
     result_of(vh(['fs-req', base, neigh, '1']))
+    for x in warm:
+        result_of(vh(['fs-req', base, sess, x]))
+    deep = result_of(vh(['fs-load', base, sess]))
+    if not deep['ok'] or len(deep['path']) < 17:
+        out.violation('C12_Atomic: a session %d levels deep, saved completely, is not found complete by a fresh process (%s): the engine would start a new session' % (
+            len(warm) - 1, deep['err'][:120]), dict(property=PID, kind='fs-deep', inputs=warm, recovered=deep))
+        return out.finish()
     classes, npoints, nmodel = set(), 0, 0
     for k in range(nstates):
         result_of(vh(['fs-req', base, sess, inputs[k]]))          # state k (old)
@@ -186,7 +196,7 @@ def run(tier):
             neigh_ok = open(os.path.join(b, '@' + neigh), 'rb').read() == neigh_bytes
             cont = result_of(vh(['fs-req', b, sess, inputs[k + 2]]))
             cont_ok = (cls == 'OLD' and proj(cont) == proj(exp_old)) or (cls == 'NEW' and proj(cont) == proj(exp_new))
-            case = dict(property=PID, kind='fs-crash', state=k, inputs=inputs[:k + 3], crash_before=dict(syscall=name, ordinal=ordinal, op=op), recovered=got, cls=cls,
+            case = dict(property=PID, kind='fs-crash', state=k, inputs=warm + inputs[:k + 3], crash_before=dict(syscall=name, ordinal=ordinal, op=op), recovered=got, cls=cls,
                         model_class=model_cls, neighbour_untouched=neigh_ok, continued=cont, expected_from_old=exp_old, expected_from_new=exp_new)
             if j == 1 and k == 0:
                 out.sample(dict(kind='real crash point', crash_before=raw[:120], recovered_class=cls, model_class=model_cls, continued_path=cont['path']))
@@ -226,7 +236,7 @@ def run(tier):
                 npoints += 1
                 classes.add(('partial-write', cls))
                 neigh_ok = open(os.path.join(b, '@' + neigh), 'rb').read() == neigh_bytes
-                case = dict(property=PID, kind='fs-crash', state=k, inputs=inputs[:k + 3], crash_after_partial_write=dict(bytes_written=q, of=op['n'], ordinal=ordinal), recovered=got, cls=cls,
+                case = dict(property=PID, kind='fs-crash', state=k, inputs=warm + inputs[:k + 3], crash_after_partial_write=dict(bytes_written=q, of=op['n'], ordinal=ordinal), recovered=got, cls=cls,
                             old=old, new=new, neighbour_untouched=neigh_ok)
                 if cls not in ('OLD', 'NEW'):
                     out.violation('C12_Atomic: process died after %d of %d bytes of the record write while saving state #%d: recovery finds a %s record (%s)' % (
